@@ -985,6 +985,9 @@ var engineMeta = map[string]meta{
 	"otlpretry": {real: []string{"the six OTLP exporters (otlptracehttp, otlptracegrpc, otlpmetrichttp, otlpmetricgrpc, otlploghttp, otlploggrpc) with their internal/retry, instrumented by simgen from the current working tree", "real net/http client and server, real gRPC client and server, real cenkalti/backoff, running inside the bubble on fake time"},
 		stub: []string{"the collector's handlers (scripted status / Retry-After / RetryInfo / latency / partial success)", "the transport: net.Pipe connections handed to an in-bubble listener, with scripted temporary dial errors (HTTP dial seam added by a build-overlay file, gRPC through the public WithDialOption)"},
 		assumptions: append([]string{"goroutines of net/http and gRPC are not scheduled by the simulator (they run to quiescence between scheduler steps); one export call is in flight at a time"}, commonAssumptions...)},
+	"promsim": {real: []string{"exporters/prometheus (exporter.go, config.go) and sdk/metric instrumented by simgen from the current working tree", "real client_golang Registry.Gather (its worker goroutines are adopted by the scheduler when they enter the exporter's Collect)"},
+		stub: []string{"a recovering wrapper around the exporter's Collector so that a panic inside Gather is reported instead of killing the worker process"},
+		assumptions: append([]string{"only the schedule-dependent clauses of C18 are decided; name translation and label sanitisation over all names/units/options are a pure function of the instrument description and are not part of this check (a fixed list of two dozen edge-case names keeps the concurrent workload honest)"}, commonAssumptions...)},
 	"logbatch": {real: []string{"sdk/log (batch.go, exporter.go, ring.go, logger.go, record.go, provider.go) instrumented by simgen from the current working tree", "internal/global"},
 		stub: []string{"log.Exporter (scripted: ok/error/slow/hang-until-ctx)", "a second Processor that mutates the record it is given"}, assumptions: commonAssumptions},
 }
